@@ -11,7 +11,7 @@ MANIFEST = {
     "technique": "function contracts against spec functions + ranking lemma + finite orbit computation of the spec; z3",
     "design_ref": "DESIGN.md section 4 C21",
 }
-KEEP = keep_labels({"step", "count", "off", "timer", "lfsr", "position", "ok"})
+KEEP = keep_labels({"step", "count", "off", "timer", "lfsr", "position", "sweepinit", "flag", "ok"})
 
 
 def tasks(ctx):
